@@ -36,6 +36,30 @@ CLAIMED = {
             "1..3 sessions x 1..4 connections x 1..4 streams share one LimitedValve (rates log-uniform in 16640 B/s..10 MB/s) with backlogged senders both ways on the bubble clock. Oracle: for every pair of events, server->client message bytes written to the simulated wire, and client->server records released by the limiter (time of the first read after the record was consumed), stay within rate*dt*1.01 + one second of burst; application-level receipt is bounded from time zero; a backlogged sender over >=20 virtual seconds gets >=95% of the rate",
             "5 C19", "virtual time only passes when no task can run (no thread stall between token wait and write); rates below one maximal record per second are not exercised",
             "virtual-clock envelope check over all event pairs"),
+    "C07": ("fault_enumeration",
+            "W-auth (real server.State, real client first packets built through ProcessRawConfig + Handshake): every single-bit flip of a valid firefox and safari ClientHello and of the WebSocket request (chrome in thorough) presented to AuthFirstPacket on a fresh state (complete), plus sampled multi-byte edits, truncations, wrong server key, and client/server clock offsets at +-179/180/181 s crossed with sub-second phases of the server clock, incl. exactly on the open window ends. Oracle: a packet whose authentication-carrying bytes (ephemeral key, session id, X25519 key share / hidden header) differ from what the client sent is never accepted; other flips may go either way but must yield the original identity; acceptance iff the timestamp is strictly inside the window. The authorisation half (unknown UID, unknown proxy method: relay to the redirect target, nothing written) is decided in W-srv by C09's peers cloak-unauth-uid / cloak-bad-method and C15's credit/expiry cases",
+            "5 C07", "admin-UID gating (session id 0) is exercised by C18's admin-session family when present; bit flips are complete per signature, edits sampled",
+            "in-transit corruption enumeration + clock-skew sweep, independent auth model"),
+    "C08": ("exploration",
+            "W-auth with the real UsedRandomCleaner goroutine inside the bubble (12 h cost microseconds): histories of presentations of one packet at virtual times spanning the whole interval in which its timestamp stays acceptable, with the first presentation placed at drawn phases around the 12 h clean-ups (e.g. 0.5 s before), server and client clock offsets, 1..16 tasks presenting at once (also the very first presentation) under statement-level schedules; plus every single-bit variant of a firefox hello (all three browsers in thorough) presented after the genuine one. Oracle: per sealed identity block at most one acceptance while its timestamp is inside the window",
+            "5 C08", "sampled histories; altered copies complete per enumerated signature",
+            "virtual-clock history search + altered-copy enumeration"),
+    "C09": ("exploration",
+            "W-srv: the real server.Serve loop, a scripted redirect target and 1..3 adversarial peers per run: random bytes, every first-byte value (complete family), TLS records of any declared length (<=, =, > buffer), foreign hellos, truncated / auth-field-damaged / structurally fuzzed / key_share-damaged / replayed Cloak hellos, valid hellos with unauthorised UID or unknown proxy method, HTTP GETs with and without bogus hidden, over-long lines; drawn segmentation, pacing (up to 5 s gaps, stalls inside the first packet), peers that stay, close or stall, target reply scripts and who closes first. Oracle = a plain TCP relay: the target receives a prefix of the peer's stream (all of it for a patient peer with a complete first packet), the peer receives exactly a prefix of the target's bytes (no server-originated byte), the upstream proxy is never contacted, no panic, no peer wedged and no server task left at final quiescence",
+            "5 C09", "redirect-dial failure is not injected (the property presupposes a reachable target)",
+            "adversarial-peer simulation against a reference relay"),
+    "C15": ("exploration",
+            "W-srv with limited users in real bbolt: 2..24 real client handshakes (three browser signatures) released together for 1..4 (UID, session id) pairs, after optional pinned sessions and an optional virtual delay during which an active user's expiry passes; caps 0..4, exhausted credit, past expiry, skewed server clock. Oracle: the partition of successful clients by session key equals the partition by (UID, session id); after every scheduler step no limited user has more sessions than its cap; unauthorised users never complete a handshake; when everything fits under the cap nobody is refused",
+            "5 C15", "closures during the burst are left to C17/C12; expectations within 25 s of an expiry instant are skipped",
+            "seeded schedule search over simultaneous handshakes, per-step cap invariant"),
+    "C16": ("exploration",
+            "W-srv with real clients (client.MakeSession), 1..3 limited users, 1..4 sessions of 1..3 connections and streams moving up to 100 kB each way through a proxy upstream, session closes (incl. a user's last), sessions starting around upload ticks, top-ups / deletions / expiry edits and an optional database error, with the real once-a-minute uploader on the bubble clock for 200 virtual seconds. Oracle (interval, mirrors no overhead constant): per user and direction, bytes delivered to the far application <= initial - stored credit <= bytes on that user's connections (payload > half the wire total, so double charging cannot hide); with the database fault only the upper bound; a user whose stored credit is exhausted, who is expired or deleted has no live session two upload rounds later",
+            "5 C16", "virtual time passes only at quiescence in this family (overlapping upload rounds are C17's)",
+            "conservation interval oracle over simulated traffic and virtual-time uploads"),
+    "C17": ("exploration",
+            "W-srv with direct access to the panel operations: admission (GetUser -> GetSession), CloseSession, the two steps of a usage upload (1..3 extra upload tasks, 1..3 rounds each) and the real once-a-minute uploader, for 1..2 limited users, 1..5 client tasks opening/closing session ids 1..3, under statement-level schedules with thread stalls. Oracles: a cycle in the wait-for graph over Cloak's mutexes is a deadlock (reported with tasks, locks and acquisition sites); at quiescent moments every live session is owned by the single active record the panel knows for its UID; no task blocked at final quiescence",
+            "5 C17", "panel operations are driven through an accessor rather than through real connections (C15/C16 drive the dispatcher path)",
+            "seeded schedule search, wait-for-graph deadlock detector, ownership invariant"),
     "C12": ("fault_enumeration",
             "reset / EOF injected on each connection and direction after each of the first 14 writes and at 14 byte offsets inside records of a fixed exchange (complete enumeration of that space, each case under a drawn schedule), plus random workloads with scripted or scheduler-chosen resets/EOFs, Session.Close from either side racing with OpenStream/Read/Write/Accept/Stream.Close, stream churn and inactivity-timer phases (1..30 s virtual). Oracles: readers see a prefix then an error, no task left blocked at final quiescence, both sessions and every connection end up closed, OpenStream refused afterwards, stream-table/open-count equality at every quiescent moment, inactivity close only with zero open streams and no later than one timeout",
             "5 C12", "fault positions outside the enumerated grid are sampled; backpressure stalls that never end are not injected",
